@@ -8,7 +8,7 @@ git apply "$d/patch.diff" || { echo "patch does not apply"; exit 2; }
 cd /verif
 for p in $pids; do
   [ -f cnvlint/props/$p.py ] || continue
-  out=$(/venv/bin/python -m cnvlint check $p --nowrite 2>&1 | grep -E "^(VIOLATION|ANALYSIS-ERROR|   )" | head -6)
+  out=$(/venv/bin/python -m cnvlint check $p --nowrite 2>&1 | grep -E -A1 "^(VIOLATION|ANALYSIS-ERROR)" | cut -c1-260 | head -8)
   [ -n "$out" ] && echo "== $p" && echo "$out"
 done
 git -C /repo checkout -- .
